@@ -332,6 +332,12 @@ def g_json(p):
                 return f"save_operator/load_operator({how}) of {simp}: {bad}"
         as_sum = simp if isinstance(simp, PauliSum) else PauliSum([simp])
         ops = [simp, PauliSum(), as_sum * 2.0]
+        if as_sum.terms:
+            # two operators of one list that are nearly, but not exactly, equal (3e-7 apart in one coefficient): each
+            # must come back as itself
+            first = as_sum.terms[0]
+            near = PauliSum([first.copy(new_coefficient=first.coefficient + 3e-7)] + [t.copy() for t in as_sum.terms[1:]])
+            ops += [near, as_sum]
         f2 = os.path.join(tmp, "ops.json")
         save_operator_set(ops, f2)
         for how in ("path", "file"):
@@ -416,11 +422,15 @@ def g_art(p):
                     return f"Measurements {p['bitstrings']} loaded ({how}) as {got.bitstrings}"
         elif kind == "expectation_values":
             vals = np.array([complex(*v) for v in p["vals"]]) if p["complex"] else np.array([v[0] for v in p["vals"]], dtype=float)
+            dt = p.get("dtype")
+            if dt:  # narrower numpy dtypes (values chosen exactly representable in them)
+                vals = np.array([complex(0.5 * i, -0.25 * i) for i in range(len(vals))], dtype=dt) if p["complex"] else np.array([0.5 * i - 1 for i in range(len(vals))], dtype=dt)
             n = len(vals)
 
             def frame(k):
                 base = np.arange(n * n, dtype=float).reshape(n, n) * 0.25 + k
-                return base + 1j * (base.T - 0.5) if p["complex"] else base
+                fr = base + 1j * (base.T - 0.5) if p["complex"] else base
+                return fr.astype(dt) if dt else fr
 
             corr = None if p["corr_frames"] is None else [frame(k) for k in range(p["corr_frames"])]
             cov = None if p["cov_frames"] is None else [frame(k + 7) * 0.5 for k in range(p["cov_frames"])]
@@ -550,6 +560,9 @@ def instances(tier, seed):
         for vals in ([], [[0.5, 0.25]], [[1.0, -2.0], [0.0, 0.0], [-3.5, 1e-9]]):
             for cf, vf_ in ((None, None), (0, 0), (1, None), (None, 1), (1, 1), (3, 2)):
                 A(artefact="expectation_values", vals=vals, complex=cplx, corr_frames=cf, cov_frames=vf_)
+    for dt, cplx in (("complex64", True), ("float32", False), ("int64", False), ("float16", False)):
+        for cf, vf_ in ((None, None), (1, 1), (2, None)):
+            A(artefact="expectation_values", vals=[[0, 0], [0, 0], [0, 0]], complex=cplx, corr_frames=cf, cov_frames=vf_, dtype=dt)
     for vals in ([], [[3, 1]], [[3, 1], [0, 4], [2, 2]]):
         for cf in (None, 0, 1, 2):
             A(artefact="parities", vals=vals, corr_frames=cf)
